@@ -41,13 +41,23 @@ def inspect(value: Any) -> str:
 def inspect_recursive(value: Any, seen_values: list) -> str:
     if value is None or value is Undefined or isinstance(value, (bool, float, complex)):
         return repr(value)
-    if isinstance(value, (int, str, bytes, bytearray)):
+    if isinstance(value, int):
+        try:
+            return trunc_str(repr(value))
+        except ValueError:
+            # exceeds the limit for converting integers to decimal strings
+            return trunc_str(hex(value))
+    if isinstance(value, (str, bytes, bytearray)):
         return trunc_str(repr(value))
     if len(seen_values) < max_recursive_depth and value not in seen_values:
         # check if we have a custom inspect method
         inspect_method = getattr(value, "__inspect__", None)
         if inspect_method is not None and callable(inspect_method):
-            s = inspect_method()
+            try:
+                s = inspect_method()
+            except Exception:  # noqa: BLE001
+                # a failing custom inspect method must not break error reporting
+                s = f"<{type(value).__name__} instance>"
             if isinstance(s, str):
                 return trunc_str(s)
             seen_values = [*seen_values, value]
